@@ -51,6 +51,9 @@ CHECKS = {
  "C04": ("enumeration of a GLV-steered scalar alphabet (lattice corners, rounding-bit and limb-carry boundaries, single-nibble halves, boundary scalars) x points x representatives x 5 code paths x receiver aliasing against double-and-add; split invariants through hooks",
          "Bounded exhaustive exploration of variable-base multiplication: scalars are constructed from the lattice basis so that a split half sits at its extreme magnitude, bit 383 of s*g flips, or the rounded quotient carries across a 64-bit limb, plus every single non-zero nibble position of either half; each is multiplied with identity / generator / endomorphism-image / small-x / x>=n points in two representatives through ScalarMult, MultiScalarMult(1), DoubleScalarMultBasepointVartime(0,s,P), MultiScalarMultVartime(1) and scalarMultVartimeGLV, with the receiver distinct and aliasing P; for every scalar k1+k2*lambda = s, both normalised halves < 2^128, mulGFlooredDiv = exact rounding, all four sign classes populated.",
          "Trusted: /verif/ref double-and-add, lattice facts checked at start (a_i+b_i*lambda=0, det=n, g_i=round(2^384 b/n)). The universal bound |k_i|<2^128 is a theorem; its extremal witnesses are checked.", "DESIGN.md §6 C04"),
+ "C16": ("exhaustive enumeration of all (scalar,point) lists of length 0..3 over a 30-48 entry alphabet (longer lists over a sub-alphabet) x both variants x receiver placements x repeated-pointer patterns; DoubleScalarMultBasepointVartime over scalar pairs x points incl. cancelling / doubling combinations; against the reference sum",
+         "Bounded exhaustive exploration of multi-scalar multiplication: every list up to length 3 over scalars {0,1,2,n-1,15,16,s,-s} x points {inf,G,-G,2G,P,P with Z != 1} (so partial sums pass through the identity and through doublings), for MultiScalarMult and MultiScalarMultVartime, with the receiver fresh or equal to each list entry and with equal entries sharing one object or not; mismatched lengths must panic; u1*G+u2*P for all pairs of a scalar alphabet x points, plus constructed u1*G = -+u2*P, receiver distinct and aliasing P.",
+         "Trusted: /verif/ref. Lists longer than 3 only over a 9-entry sub-alphabet (stated).", "DESIGN.md §6 C16"),
 }
 
 PENDING_REASON = "check under construction in this round; not yet claimed (see DESIGN.md §6 for the planned bounded-exhaustive check)"
